@@ -75,9 +75,6 @@ func (p *parser) skip(afterEnd bool) (ok bool, why string) {
 					}
 					return false, "unterminated-annotation"
 				}
-				if strings.TrimSpace(p.s[p.i+2:p.i+2+k]) == "" {
-					p.res.Unsettled = "empty /* */ annotation"
-				}
 				p.i += 2 + k + 2
 			default:
 				return false, "lone-slash"
